@@ -4,80 +4,6 @@ namespace QP.C10
 set_option linter.unusedSimpArgs false
 set_option linter.unusedVariables false
 
-/-- all nodes of the forest -/
-def Univ (F : List T) : List T := F.flatMap subterms
-
-theorem mem_univ_of_root {F : List T} {r : T} (h : r ∈ F) {c : T} (hc : c ∈ subterms r) : c ∈ Univ F :=
-  List.mem_flatMap.mpr ⟨r, h, hc⟩
-
-theorem mem_namedSub_flat {F : List T} {a : T} : a ∈ F.flatMap namedSub ↔ a ∈ Univ F ∧ a.named = true := by
-  simp only [Univ, List.mem_flatMap, namedSub, List.mem_filter]
-  constructor
-  · rintro ⟨r, hr, ha, hn⟩; exact ⟨⟨r, hr, ha⟩, hn⟩
-  · rintro ⟨⟨r, hr, ha⟩, hn⟩; exact ⟨r, hr, ha, hn⟩
-
-theorem uniq {F : List T} (hu : UniqueIds F) {a b : T} (ha : a ∈ Univ F) (hb : b ∈ Univ F) {i : Id}
-    (hai : a.id = some i) (hbi : b.id = some i) : a = b := by
-  apply hu a (mem_namedSub_flat.mpr ⟨ha, by simp [T.named, hai]⟩) b
-    (mem_namedSub_flat.mpr ⟨hb, by simp [T.named, hbi]⟩)
-  rw [hai, hbi]
-
-/-! ### the transaction dictionary -/
-
-theorem ins_named {txn : Txn} {n : T} {i : Id} (h : n.id = some i) : ins txn n = put i (body n, n) txn := by
-  simp only [ins, h]
-
-theorem fold_ins_lookup : ∀ (L : List T) (txn : Txn) (j : Id) (d : J) (n : T),
-    lookup j (L.foldl ins txn) = some (d, n) →
-    lookup j txn = some (d, n) ∨ (n ∈ L ∧ n.id = some j ∧ d = body n)
-  | [], txn, j, d, n, h => Or.inl h
-  | m :: L, txn, j, d, n, h => by
-    simp only [List.foldl_cons] at h
-    rcases fold_ins_lookup L (ins txn m) j d n h with h' | h'
-    · cases hm : m.id with
-      | none => simp only [ins, hm] at h'; exact Or.inl h'
-      | some i =>
-        rw [ins_named hm, lookup_put] at h'
-        by_cases hji : j = i
-        · simp only [hji, if_true, Option.some.injEq, Prod.mk.injEq] at h'
-          right; refine ⟨?_, ?_, ?_⟩
-          · rw [← h'.2]; exact List.mem_cons_self
-          · rw [← h'.2, hji]; exact hm
-          · rw [← h'.1, ← h'.2]
-        · simp only [hji, if_false] at h'; exact Or.inl h'
-    · exact Or.inr ⟨List.mem_cons_of_mem _ h'.1, h'.2⟩
-
-theorem hasKey_ins_mono {txn : Txn} {n : T} {j : Id} (h : hasKey j txn = true) : hasKey j (ins txn n) = true := by
-  cases hn : n.id with
-  | none => simpa only [ins, hn] using h
-  | some i => rw [ins_named hn, hasKey_put]; simp [h]
-
-theorem fold_ins_has_mono : ∀ (L : List T) (txn : Txn) (j : Id), hasKey j txn = true →
-    hasKey j (L.foldl ins txn) = true
-  | [], _, _, h => h
-  | m :: L, txn, j, h => fold_ins_has_mono L (ins txn m) j (hasKey_ins_mono h)
-
-theorem fold_ins_has : ∀ (L : List T) (txn : Txn), ∀ n ∈ L, ∀ i, n.id = some i →
-    hasKey i (L.foldl ins txn) = true
-  | [], _, n, h, _, _ => by simp at h
-  | m :: L, txn, n, h, i, hi => by
-    simp only [List.foldl_cons]
-    rcases List.mem_cons.mp h with e | e
-    · subst e
-      apply fold_ins_has_mono
-      rw [ins_named hi, hasKey_put]; simp
-    · exact fold_ins_has L (ins txn m) n e i hi
-
-theorem fold_ins_nodup : ∀ (L : List T) (txn : Txn), (txn.map Prod.fst).Nodup →
-    ((L.foldl ins txn).map Prod.fst).Nodup
-  | [], _, h => h
-  | m :: L, txn, h => by
-    simp only [List.foldl_cons]
-    apply fold_ins_nodup L
-    cases hm : m.id with
-    | none => simpa only [ins, hm] using h
-    | some i => rw [ins_named hm]; exact nodup_keys_put i _ h
-
 /-- `commit`: every entry of the transaction is `put` -/
 theorem fold_put_lookup {α β : Type} (g : α → β) : ∀ (txn : List (Id × α)) (b : List (Id × β)) (j : Id),
     (txn.map Prod.fst).Nodup →
@@ -150,7 +76,7 @@ theorem setitem_inv {F : List T} (hu : UniqueIds F) {st : St} (hinv : Inv F st) 
     simp only [hb, Bool.false_eq_true, if_false]
     have hsubU : ∀ c ∈ subterms t, c ∈ Univ F := fun c hc => mem_univ_of_root ht hc
     have hcompat : Compat st (subterms t) := hinv.compat hu hsubU
-    rw [overwrite_spec st i t hid hcompat]
+    rw [overwrite_spec hu st i t hid hcompat hsubU]
     -- the transaction
     have hLsub : ∀ n ∈ pendRoot st t, n ∈ subterms t := by
       intro n hn
